@@ -3,6 +3,7 @@ import re
 from .. import mir as M
 
 META = {
+    "all_features": True,
     "explanation": "Proof-style obligation groups O1-O4 over the two bodies of crate essential_lock: the Mutex field is private "
                    "and touched only by `new`/`apply`; no API hands out the guard or a reference derived from it; in `apply` every "
                    "invocation of the caller's closure is dominated by Mutex::lock on that field and its success, receives "
